@@ -308,6 +308,70 @@ C19_HAND = [
 ]
 
 
+CLI_TASKS = [
+    {"task": "strong", "left": "p(X) :- q(X), not r(X). s :- p(1).", "right": "p(X) :- q(X), not r(X). s :- p(1), q(1).\n"},
+    {"task": "external", "left": "p(X) :- q(X), X > n.", "right": "p(X) :- q(X), X >= n + 1.", "ug": "input: q/1. output: p/1. input: n -> integer."},
+    {"task": "external", "spec": "spec(forward): forall X (p(X) -> q(X)). spec(backward): forall X (q(X) and X > 0 -> p(X)). spec: forall X (p(X) -> X > 0).",
+     "right": "p(X) :- q(X), X > 0. p(X) :- q(X), r(X). r(X) :- r(X), q(X).", "ug": "input: q/1. output: p/1."},
+]
+
+
+def cli_binding(ctx):
+    """The families are computed through the verification hook with an explicit flag record; the command line must select exactly those
+    families for the corresponding EXPLICIT options: same problem names, same problem texts."""
+    import os
+    import shutil
+    import subprocess
+    out, nruns = [], 0
+    work = ctx.path("clibind")
+    os.makedirs(work, exist_ok=True)
+    for ti, t in enumerate(CLI_TASKS):
+        ext = t["task"] == "external"
+        fsets = []
+        for seq, simp, eqb in itertools.product([False, True], repeat=3):
+            for direction in ("universal", "forward", "backward"):
+                if ext:
+                    fsets.append({"mu": False, "sequential": seq, "simplify": simp, "eqbreak": eqb, "direction": direction, "bypass": ti == 2})
+                else:
+                    fsets += [{"mu": mu, "sequential": seq, "simplify": simp, "eqbreak": eqb, "direction": direction, "bypass": False} for mu in (False, True)]
+        if ctx.quick():
+            fsets = fsets[:: 3] + fsets[1:: 7]
+        case = dict(t, id=f"cli{ti}", flagsets=fsets, with_text=True)
+        recs = [r for r in V.run_harness(ctx, "problems", [case], tag=f"-cli{ti}") if r["kind"] in ("strong", "external")]
+        if not recs:
+            raise V.ToolError(f"command-line binding: task {ti} is rejected by the harness")
+        d = os.path.join(work, f"t{ti}")
+        os.makedirs(d, exist_ok=True)
+        paths = []
+        for key, fn in (("spec", "s.spec"), ("left", "a.lp"), ("right", "b.lp"), ("ug", "u.ug")):
+            if key in t:
+                with open(os.path.join(d, fn), "w") as fh:
+                    fh.write(t[key] + "\n")
+                paths.append(os.path.join(d, fn))
+        for fm in recs[0]["families"]:
+            fl = fm["flags"]
+            save = os.path.join(d, "save")
+            shutil.rmtree(save, ignore_errors=True)
+            os.makedirs(save)
+            args = ["verify", "--equivalence", t["task"], "--no-proof-search", "--save-problems", save,
+                    "--decomposition", "sequential" if fl["sequential"] else "independent", "--direction", fl["direction"],
+                    "--formula-representation", "mu" if fl["mu"] else "tau-star"]
+            args += ([] if fl["simplify"] else ["--no-simplify"]) + ([] if fl["eqbreak"] else ["--no-eq-break"]) + (["--bypass-tightness"] if fl["bypass"] else [])
+            r = subprocess.run([V.ANTHEM] + args + paths, stdout=subprocess.PIPE, stderr=subprocess.PIPE, text=True, timeout=120)
+            nruns += 1
+            files = {fn[:-2]: open(os.path.join(save, fn)).read() for fn in os.listdir(save) if fn.endswith(".p")}
+            lib = {p["name"]: p["text"] for p in fm.get("problems", [])}
+            refused_lib = "problems" not in fm
+            if refused_lib != (r.returncode != 0) or files != lib:
+                diff = sorted(set(files) ^ set(lib)) or [n for n in sorted(lib) if files.get(n) != lib[n]][:3]
+                out.append({"check": "C19.command_line_options_select_the_family", "text": " ".join(args[:3] + args[6:]) + " | " + recs[0]["text"],
+                            "detail": f"the command line (exit {r.returncode}) wrote {len(files)} problems, the library family for {fl} has {len(lib)} "
+                                      f"({'refused' if refused_lib else 'accepted'}); differing: {diff}; stderr {r.stderr[-200:]!r}",
+                            "record": {"task": t, "flags": fl, "argv": args}})
+    shutil.rmtree(work, ignore_errors=True)
+    return out, nruns
+
+
 def run_C19(ctx):
     V.build()
     q = ctx.quick()
@@ -353,9 +417,11 @@ def run_C19(ctx):
     stats, violations = V.collect(verdicts, usable, "C19")
     for p in s_panics + e_panics:
         violations.append({"check": "C19.panic", "text": p["text"], "detail": f"anthem panicked under {p['flags']}: {p['panic']}", "record": p})
+    cviol, ncli = cli_binding(ctx)
+    violations += cviol
     nfam = sum(len([f for f in r["families"] if "problems" in f]) for r in usable)
     coverage = {
-        "programs": len(usable), "families_compared": nfam, "design_check_states": int(mm.group(2)), "disagreements_checked": stats["verdicts"] - stats["skip"],
+        "programs": len(usable), "families_compared": nfam, "command_line_runs_compared_with_library_families": ncli, "design_check_states": int(mm.group(2)), "disagreements_checked": stats["verdicts"] - stats["skip"],
         "evaluations": stats["evaluations"], "unknown_evaluations": stats["unknown"], "distinct_nontrivial": len(stats["nontrivial_ids"]),
         "vacuous_or_constant": stats["vacuous"], "skipped": {"strong": s_skipped, "external": e_skipped}, "tasks_refused_by_anthem": refused,
         "rule": "the C03 and C02 tasks, each under ALL combinations of --no-simplify x --no-eq-break x --decomposition (and tau-star/mu for strong "
